@@ -11,7 +11,12 @@ Import ListNotations.
 Section HetParams.
 Variable A : Type.
 
+(* the layer returns the parameters it was given (true for every modelled kind except RBFLayer, which stores exp(p) and returns
+   log(exp(p)): there it is the hypothesis log o exp = id) *)
+Definition k_faithful (k : lkind A) : Prop := forall p, length p = k_np k -> k_get k p = p.
+
 Theorem hnet_roundtrip (N : hnet A) (t : list A) :
+  Forall (fun l => h_opt l = true -> k_faithful (h_kind l)) N ->
   length t = hnet_np N ->
   hnet_params (hnet_set N t) = t /\
   length (hnet_params (hnet_set N t)) = hnet_np N /\
@@ -20,16 +25,18 @@ Theorem hnet_roundtrip (N : hnet A) (t : list A) :
   map (@h_kind A) (hnet_set N t) = map (@h_kind A) N /\
   (forall i l, nth_error N i = Some l -> h_opt l = false -> nth_error (hnet_set N t) i = Some l).
 Proof.
-  revert t; induction N as [|l N IH]; intros t L; cbn [hnet_np hnet_set hnet_params map] in *.
+  revert t; induction N as [|l N IH]; intros t FF L; cbn [hnet_np hnet_set hnet_params map] in *.
   - destruct t; [|discriminate]. repeat split; auto; intros i l H; destruct i; discriminate.
-  - destruct (h_opt l) eqn:E.
-    + destruct (IH (skipn (k_np (h_kind l)) t)) as (I1 & I2 & I3 & I4 & I5 & I6); [rewrite skipn_length; lia|].
-      cbn [hnet_np hnet_params map h_opt h_kind h_par]. rewrite I1, I3, I4, I5.
+  - pose proof (Forall_inv FF) as Fl. pose proof (Forall_inv_tail FF) as FN. destruct (h_opt l) eqn:E.
+    + destruct (IH (skipn (k_np (h_kind l)) t) FN) as (I1 & I2 & I3 & I4 & I5 & I6); [rewrite skipn_length; lia|].
+      cbn [hnet_np hnet_params map h_opt h_kind h_par].
+      rewrite (Fl E (firstn (k_np (h_kind l)) t)) by (rewrite firstn_length; lia).
+      rewrite I1, I3, I4, I5.
       repeat split; auto.
       * apply firstn_skipn.
       * rewrite firstn_skipn. lia.
       * intros i l0 H F. destruct i; cbn [nth_error] in *; [inversion H; subst; congruence|]. apply I6; auto.
-    + destruct (IH t) as (I1 & I2 & I3 & I4 & I5 & I6); [lia|].
+    + destruct (IH t FN) as (I1 & I2 & I3 & I4 & I5 & I6); [lia|].
       cbn [hnet_np hnet_params map]. rewrite ?E, I1, I3, I4, I5. repeat split; auto.
       intros i l0 H F. destruct i; cbn [nth_error] in *; auto.
 Qed.
